@@ -134,7 +134,10 @@ RTPS_NOTE = ("the real participants run in the deterministic simulation (public 
 
 
 RTPS_MC = {"quick": [("MC_Rtps", "MC_Rtps_quick.cfg")],
-           "thorough": [("MC_Rtps", "MC_Rtps_safety.cfg"), ("MC_Rtps", "MC_Rtps_safetyfrag.cfg")]}
+           "thorough": [("MC_Rtps", "MC_Rtps_safety.cfg"), ("MC_Rtps", "MC_Rtps_safetyfrag.cfg"),
+                        ("MC_Rtps", "MC_Rtps_live.cfg")],
+           # self test: the GAP handling of the pinned commit must violate NoSkipHeld in the model
+           "must_fail": [("MC_Rtps", "MC_Rtps_jump.cfg")]}
 
 
 def simprop(gen, owns, required, spec="Trace_Rtps", keep_sleep=False, mc=RTPS_MC, norm=None):
